@@ -519,6 +519,13 @@ func (d *Decoder) LoadParityData() error {
 				return nil, err
 			}
 
+			if parityFile.mainPacket == nil {
+				// A volume file isn't required to repeat
+				// the main packet; its recovery packets
+				// were already matched against the set ID.
+				return &parityFile, nil
+			}
+
 			if d.sliceByteCount != parityFile.mainPacket.sliceByteCount {
 				return nil, errors.New("slice byte count mismatch")
 			}
